@@ -77,13 +77,28 @@ CLAIMS['C02'] = dict(
     note=_TB + 'serde_json assumed.',
     design_ref='DESIGN.md 5 C02')
 
+CLAIMS['C08'] = dict(
+    text='PARTIAL: unbounded proof of the lookup half: SourceMapIndex::lookup_token resolves in the section with the greatest offset not after the position '
+         '(GLB contract instantiated for section offsets), delegates the section-relative position (line - off_line; col - off_col on the first line only), and '
+         'both subtractions are proved safe; nothing is returned before the first section. flatten and the lookup/flatten agreement lemma are not yet under contract.',
+    note=_TB + 'DecodedMap::lookup_token (3-way dispatch) is represented by a named result dm_lookup (assumed); sections are required sorted by offset, as decode_index leaves them.',
+    design_ref='DESIGN.md 5 C08')
+CLAIMS['C14'] = dict(
+    text='PARTIAL: unbounded proof that get_scope_for_token returns the name attached to the last function-map entry at or before (original line + 1, original column) '
+         '(GLB contract over (u64 line, column) keys), nothing without a function map or before all entries, and nothing for an out-of-range name index. Function-map '
+         'decoding (decode_hermes) and the serialise/decode stability are not yet under contract.',
+    note=_TB + 'function maps are required ordered by (line, column), as Metro emits them.',
+    design_ref='DESIGN.md (C14 added in the build phase)')
+
 NOT_APPLICABLE = {p: 'under construction in this session (contract-based check being built; see DESIGN.md decision table)' for p in
-                  ['C05', 'C08', 'C09', 'C10', 'C14', 'C15', 'C17', 'C18', 'C19', 'C20']}
+                  ['C05', 'C09', 'C10', 'C15', 'C17', 'C18', 'C19', 'C20']}
 NOT_APPLICABLE['C16'] = ('concurrency (interleavings of threads sharing a SourceView over std Mutex / atomics): Kani has no thread support and Verus needs '
                          'its own permission-typed primitives, so no contract within reach of the installed verifiers expresses or decides it')
 
 # parts of each property that no discharged obligation covers (reported in every evidence file, never counted)
 NOT_COVERED = {
+    'C08': ['flatten (token translation, contents, ignore list, nested indexes)', 'agreement lemma lookup vs flatten', 'DecodedMap::lookup_token dispatch (assumed naming)'],
+    'C14': ['decode_hermes function-map decoding (running column/name/line state)', 'get_original_function_name wrapper', 'stability under serialise/decode'],
     'C01': ['mapping-level inverse lemma decode(encode(ts)) == dedup(ts) (spec level)', 'as_raw_sourcemap field plumbing (SourceMap / SourceMapIndex / Hermes)',
             'decode_regular tail (names / sources / contents / file / debug id / ignore list conversions)', 'serde_json layer'],
     'C02': ['exact accumulator semantics of the mapping loop against a reference mappings decoder', 'decode_common kind dispatch', 'lenient names/file/sources conversions, debug_id precedence'],
